@@ -43,6 +43,35 @@ CLOSURE_FUNCS = {
 }
 
 
+def _is_transitive_walk(f, link=None) -> bool:
+    """does f walk a link field transitively: a loop whose worklist is fed with the links of the element taken from
+    the worklist (directly or through a local), or a recursive call?"""
+    selfn = f.self_name
+    for c in own_nodes(f.node):
+        if isinstance(c, ast.Call) and isinstance(c.func, ast.Attribute) and c.func.attr == f.name:
+            return True
+    for lp in [n for n in own_nodes(f.node) if isinstance(n, (ast.While, ast.For))]:
+        for n in ast.walk(lp):
+            if isinstance(n, ast.Call) and isinstance(n.func, ast.Attribute) and n.func.attr in ('extend', 'append', 'update', 'add') \
+                    and isinstance(n.func.value, ast.Name) and n.args:
+                wl = n.func.value.id
+                arg = n.args[0]
+                if isinstance(arg, ast.Name):
+                    for a_ in ast.walk(lp):
+                        if isinstance(a_, ast.Assign) and len(a_.targets) == 1 and isinstance(a_.targets[0], ast.Name) \
+                                and a_.targets[0].id == arg.id:
+                            arg = a_.value
+                            break
+                reads = [x for x in ast.walk(arg) if isinstance(x, ast.Attribute) and x.attr in CLOSURE_FIELDS
+                         and (link is None or x.attr == link)]
+                consumed = (isinstance(lp, ast.While) and any(isinstance(x, ast.Name) and x.id == wl for x in ast.walk(lp.test))) or \
+                    any(isinstance(x, ast.Call) and isinstance(x.func, ast.Attribute) and x.func.attr in ('pop', 'popleft')
+                        and isinstance(x.func.value, ast.Name) and x.func.value.id == wl for x in ast.walk(lp))
+                if reads and consumed and not all(isinstance(x.value, ast.Name) and x.value.id == selfn for x in reads):
+                    return True
+    return False
+
+
 def _closure_functions(ctx) -> list[Inst]:
     prog = ctx.prog
     insts = []
@@ -56,6 +85,12 @@ def _closure_functions(ctx) -> list[Inst]:
         calls = [n for n in own_nodes(f.node) if isinstance(n, ast.Call) and isinstance(n.func, ast.Attribute)]
         delegates = [c for c in calls if c.func.attr in ('get_all_subassets', 'get_all_superassets', 'is_subasset_of')
                      and c.func.attr != f.name]
+        # delegation to another method of the class that walks the links transitively
+        if f.cls is not None:
+            for c in calls:
+                g_ = f.cls.methods.get(c.func.attr)
+                if g_ is not None and g_ is not f and c not in delegates and _is_transitive_walk(g_, link):
+                    delegates.append(c)
         recursive = [c for c in calls if c.func.attr == f.name]
         # (a) direction
         construct = f'CLOSUREFN: {f.name} follows {link} only'
@@ -257,6 +292,8 @@ def run(ctx) -> list[Inst]:
                 construct = f'CLOSURE: read of .{n.attr}'
                 top = f.short
                 allowed = top in CLOSURE_READERS or any(top.startswith(a + '.') for a in CLOSURE_READERS)
+                if not allowed and f.cls is not None and f.cls.name == 'LanguageGraphAsset' and _is_transitive_walk(f):
+                    allowed = True          # a further closure function: it walks the links transitively itself
                 props = props_for(f.short, rel) or ('C15',)
                 if allowed:
                     insts.append(Inst(RULE, f.short, construct, 'ok', file=rel, line=n.lineno,
